@@ -41,6 +41,12 @@ pub enum Op {
     Sum2,
     Sum1,
     Sum0,
+    /// a + b + c + a + b + ... : n summands taken cyclically from the three operands
+    SumLong33,
+    SumLong70,
+    SumLong100,
+    /// a - a through one aliased reference
+    Zero,
 }
 
 forms! {
@@ -106,6 +112,16 @@ forms! {
     SumAffOwnedFlatten2: true, false, 2, Sum2;
     SumAffRefFilter3: true, false, 3, Sum3;
     SumAffOwnedFromFn1: true, false, 1, Sum1;
+    // sums with more summands than any internal batch size
+    SumOwnedLong33: true, false, 3, SumLong33;
+    SumRefLong70: true, false, 3, SumLong70;
+    SumAffOwnedLong33: true, false, 3, SumLong33;
+    SumAffRefLong100: true, false, 3, SumLong100;
+    // both operands are the same object (one reference used twice)
+    AddRefRefAliased: true, true, 1, Dbl;
+    SubRefRefAliased: true, true, 1, Zero;
+    AffRefAddAffRefAliased: true, false, 1, Dbl;
+    AffRefSubAffRefAliased: true, false, 1, Zero;
     // arkworks group traits
     ZeroPlus: true, false, 1, Sum1;
     AffIntoGroupAdd: true, false, 2, Add;
@@ -242,6 +258,28 @@ pub fn apply_ark(f: Form, a: AE, b: AE, c: AE) -> AE {
             let mut v = vec![aff(a)];
             std::iter::from_fn(move || v.pop()).sum()
         }
+        Form::SumOwnedLong33 => (0..33).map(|i| [a, b, c][i % 3]).collect::<Vec<AE>>().into_iter().sum(),
+        Form::SumRefLong70 => (0..70).map(|i| [a, b, c][i % 3]).collect::<Vec<AE>>().iter().sum(),
+        Form::SumAffOwnedLong33 => (0..33).map(|i| aff([a, b, c][i % 3])).collect::<Vec<AA>>().into_iter().sum(),
+        Form::SumAffRefLong100 => (0..100).map(|i| aff([a, b, c][i % 3])).collect::<Vec<AA>>().iter().sum(),
+        Form::AddRefRefAliased => {
+            let r = &a;
+            r + r
+        }
+        Form::SubRefRefAliased => {
+            let r = &a;
+            r - r
+        }
+        Form::AffRefAddAffRefAliased => {
+            let x = aff(a);
+            let r = &x;
+            (r + r).into()
+        }
+        Form::AffRefSubAffRefAliased => {
+            let x = aff(a);
+            let r = &x;
+            (r - r).into()
+        }
         Form::ZeroPlus => AE::zero() + a,
         Form::AffIntoGroupAdd => aff(a).into_group() + aff(b).into_group(),
         Form::AffAddGroupTrait => {
@@ -284,6 +322,14 @@ pub fn apply_min(f: Form, a: min::Element, b: min::Element, _c: min::Element) ->
             x -= b;
             x
         }
+        Form::AddRefRefAliased => {
+            let r = &a;
+            r + r
+        }
+        Form::SubRefRefAliased => {
+            let r = &a;
+            r - r
+        }
         Form::NegOp => -a,
         Form::DoubleTrait => a.double(),
         other => panic!("form {other:?} does not exist in the minimal configuration"),
@@ -315,6 +361,15 @@ pub fn model_apply(op: Op, a: &Pt, b: &Pt, c3: &Pt) -> Pt {
         Op::Sum2 => c.add(a, b),
         Op::Sum1 => a.clone(),
         Op::Sum0 => c.identity(),
+        Op::Zero => c.sub(a, a),
+        Op::SumLong33 | Op::SumLong70 | Op::SumLong100 => {
+            let n = match op { Op::SumLong33 => 33, Op::SumLong70 => 70, _ => 100 };
+            let mut acc = c.identity();
+            for i in 0..n {
+                acc = c.add(&acc, [a, b, c3][i % 3]);
+            }
+            acc
+        }
     }
 }
 
@@ -434,7 +489,7 @@ impl Property for C04 {
     const ID: &'static str = "C04";
     fn rule(&self) -> String {
         "cases: straight-line programs (1..=14 instructions over 5 registers initialised from element recipes) mixing every operator form of the \
-         configuration (61 ark forms: owned/borrowed, assign, mixed affine/projective, Sum over 4 iterator kinds with exact and with zero size hints, negate, double; 14 min forms); \
+         configuration (69 ark forms: owned/borrowed, assign, mixed affine/projective, Sum over 4 iterator kinds with exact and with zero size hints, negate, double; 14 min forms); \
          after every instruction the destination's hook coordinates must denote the model's affine-group-law result (either coset point, on the \
          curve, Z != 0, T*Z = X*Y); plus law cases (neutral, P-P, commutative, associative, (P+Q)-Q, P+(-Q)) through the library's equality for \
          every binary form. Non-trivial: a binary instruction on two distinct non-identity elements, or a law case; distinct by digest"
